@@ -12,9 +12,54 @@ def scenarios(seed, tier, failed):
     # the other thread uses the same attribute of ANOTHER instance of the class (the descriptor is shared)
     for other in ('assign', 'read', 'augassign'):
         yield {'kind': 'tsa-race', 'other': other, 'timeout': 20, 'second_instance': True}
+    yield {'kind': 'two-attributes', 'timeout': 20}
+
+
+def run_two_attributes(sc):
+    """one statement updates one thread-safe attribute from another one; afterwards other threads use both"""
+    from miros.thread_safe_attributes import MetaThreadSafeAttributes
+
+    class Meter(metaclass=MetaThreadSafeAttributes):
+        _attributes = ['total', 'step']
+    m = Meter()
+    m.total = 1
+    m.step = 2
+    errs = []
+
+    stmt_done, release = threading.Event(), threading.Event()
+
+    def first():
+        try:
+            m.total += m.step
+        except Exception as ex:
+            errs.append(repr(ex))
+        stmt_done.set()
+        release.wait(5.0)          # stay alive: a finished thread's ident (and with it its RLock ownership) may be reused
+    t = threading.Thread(target=first, daemon=True)
+    t.start()
+    stmt_done.wait(2.0)
+    done = []
+
+    def second():
+        m.step = 5
+        m.total += 1
+        done.append((m.total, m.step))
+    t2 = threading.Thread(target=second, daemon=True)
+    t2.start()
+    t2.join(2.0)
+    release.set()
+    if errs:
+        return False, 'm.total += m.step raised %s' % errs[0], '__get__'
+    if not done:
+        return False, 'after `m.total += m.step` in one thread another thread can no longer use the attributes (a lock was kept)', '__get__'
+    if done[0] != (4, 5):
+        return False, 'values %r, expected (4, 5)' % (done[0],), '__set__'
+    return True, ''
 
 
 def run(sc):
+    if sc.get('kind') == 'two-attributes':
+        return run_two_attributes(sc)
     from miros.thread_safe_attributes import MetaThreadSafeAttributes
 
     class K(metaclass=MetaThreadSafeAttributes):
@@ -34,11 +79,16 @@ def run(sc):
             go.wait(3.0)
             return left + 10
 
+    finish = threading.Event()      # both threads stay alive until the final probe: the ident of a finished thread
+    a_done, b_done = threading.Event(), threading.Event()   # (hence its RLock ownership) may be handed to a new thread
+
     def a():
         try:
             obj.x += Blocker()
         except Exception as ex:
             errors.append(('A: obj.x += 10', repr(ex)))
+        a_done.set()
+        finish.wait(6.0)
 
     def b():
         try:
@@ -50,6 +100,8 @@ def run(sc):
                 second.x += 100
         except Exception as ex:
             errors.append(('B: %s' % sc['other'], repr(ex)))
+        b_done.set()
+        finish.wait(6.0)
 
     ta, tb = threading.Thread(target=a, daemon=True), threading.Thread(target=b, daemon=True)
     ta.start()
@@ -57,9 +109,10 @@ def run(sc):
     tb.start()
     time.sleep(0.2)          # B either waits for the lock (correct) or barges in (defect)
     go.set()
-    ta.join(3.0)
-    tb.join(3.0)
-    if ta.is_alive() or tb.is_alive():
+    a_done.wait(3.0)
+    b_done.wait(3.0)
+    if not (a_done.is_set() and b_done.is_set()):
+        finish.set()
         return False, 'deadlock: a thread never finished its statement', 'plain' if sc['other'] == 'assign' else 'augassign'
     if errors:
         return False, 'statement failed: %s' % (errors,), '__set__' if sc['other'] == 'assign' else 'augassign'
@@ -76,6 +129,7 @@ def run(sc):
     t = threading.Thread(target=lambda: probe.append(obj.x), daemon=True)
     t.start()
     t.join(1.0)
+    finish.set()
     if not probe:
         return False, 'the attribute lock is still held after all statements finished', '__get__'
     return True, ''
